@@ -15,10 +15,17 @@ use std::sync::Mutex;
 pub struct Fail {
     pub sig: String,
     pub detail: String,
+    /// when the oracle itself identifies the failing input class precisely, the finding is keyed by
+    /// this text instead of the (minimised) history
+    pub fixed_key: Option<String>,
 }
 impl Fail {
     pub fn new(sig: impl Into<String>, detail: impl Into<String>) -> Self {
-        Fail { sig: sig.into(), detail: detail.into() }
+        Fail { sig: sig.into(), detail: detail.into(), fixed_key: None }
+    }
+    pub fn keyed(mut self, k: impl Into<String>) -> Self {
+        self.fixed_key = Some(k.into());
+        self
     }
 }
 
@@ -105,7 +112,10 @@ fn report_failure<M: Model>(m: &M, rep: &Report, hist: &[M::Op], f: &Fail, case_
     };
     let ops: Vec<String> = min.iter().map(|o| format!("{:?}", o)).collect();
     rep.violation(Violation {
-        key: format!("{}|{}|{}", m.name(), f.sig, m.history_key(&min)),
+        key: match &f.fixed_key {
+            Some(k) => format!("{}|{}", f.sig, k),
+            None => format!("{}|{}|{}", m.name(), f.sig, m.history_key(&min)),
+        },
         what: format!("history [{}]: {}", ops.join(", "), detail),
         case: json!({"model": m.name(), "ops": ops, "extra": case_extra}),
     });
